@@ -120,6 +120,9 @@ class World:
         self.ctx = ctx
         self.S = S
         self.clk = S.install_clock()
+        # the call-state cache lives on the clock of _app_stream; its TTL is the token TTL (100 s here), so a run longer
+        # than that would lose its warm entries in REAL time.  Pinned: an entry put by /init stays live for the whole run.
+        self.cache_clk = S.install_cache_clock(T0)
         self.falcon_testing = falcon.testing
         self.apps: dict[str, Any] = {}
         self.app_cfg: dict[str, tuple[bytes, int, bool]] = {}
@@ -365,7 +368,7 @@ def run(ctx: Any) -> None:
 
     # ---- generators ----------------------------------------------------------------------------------------------
     AUTHI = 5  # ("jwt", "alice")
-    base_sets = [("cold", AUTHI, "ex"), ("cold", 0, "prod")] if quick else [("cold", AUTHI, "ex"), ("cold", 0, "prod"), ("cold", 1, "prod"), ("cold", 0, "ex"), ("cold", 11, "ex")]
+    base_sets = [("cold", AUTHI, "ex"), ("cold", 0, "prod")] if quick else [("cold", AUTHI, "ex"), ("cold", 0, "prod"), ("cold", 1, "prod"), ("cold", 11, "ex")]
 
     # 0. genuine traffic: every stream, right identity, inside the TTL; also cancel, later cursors, same key in another app
     for (app, ii, m), (cur, call) in streams.items():
@@ -393,7 +396,9 @@ def run(ctx: Any) -> None:
     # 1. every single-bit flip of the token text
     for nb, (app, ii, m) in enumerate(base_sets):
         cur, call = streams[(app, ii, m)]
-        stride = 16 if (quick and nb > 0) else 1  # quick: every position of the first pair of tokens, every 16th of the second
+        # every position of the first pair of tokens; quick: every 16th of the second; thorough: every 3rd of the
+        # second pair, every 16th of the others
+        stride = 1 if nb == 0 else (16 if quick else (3 if nb == 1 else 16))
         for i in range(0, len(cur), stride):
             for bit in range(8):
                 case("flip-text-cursor", app, m, _flip_text(cur, i, bit), call, IDENTS[ii], T0 + 1, base=cur, cur_sym=("TFlip", cur, i, bit))
@@ -402,7 +407,7 @@ def run(ctx: Any) -> None:
                 case("flip-text-call", app, m, cur, _flip_text(call, i, bit), IDENTS[ii], T0 + 1, base=call, call_sym=("TFlip", call, i, bit))
     # ... cursor flips against the warm app too (the cursor is opened before the cache is consulted)
     cur, call = streams[("warm", AUTHI, "prod")]
-    step = 16 if quick else 1
+    step = 16 if quick else 8
     for i in range(0, len(cur), step):
         for bit in range(8):
             case("flip-text-cursor", "warm", "prod", _flip_text(cur, i, bit), call, IDENTS[AUTHI], T0 + 1, base=cur, cur_sym=("TFlip", cur, i, bit))
@@ -412,7 +417,9 @@ def run(ctx: Any) -> None:
         cur, call = streams[(app, ii, m)]
         for which, tok in (("cursor", cur), ("call", call)):
             raw = base64.b64decode(tok)
-            positions = range(len(raw)) if not quick else sorted(set(range(0, 26)) | set(range(len(raw) - 17, len(raw))) | set(rng.sample(range(26, len(raw) - 17), 40)))
+            # version byte, nonce, tag: every bit; ciphertext: every bit for the first pair in the thorough tier, a sample otherwise
+            full = (not quick) and (app, ii, m) == base_sets[0]
+            positions = range(len(raw)) if full else sorted(set(range(0, 26)) | set(range(len(raw) - 17, len(raw))) | set(rng.sample(range(26, len(raw) - 17), 40)))
             for i in positions:
                 for bit in range(8):
                     mut = bytearray(raw)
@@ -434,7 +441,7 @@ def run(ctx: Any) -> None:
                     case(cls + "-call", app, m, cur, t, IDENTS[ii], T0 + 1, base=tok, call_sym=sym)
 
             for i in range(len(tok)):
-                for _ in range(1 if quick else 4):
+                for _ in range(1):
                     v = rng.choice([rng.randrange(256), rng.choice(b"ABCDEFGHIJKLMNOPQRSTUVWXYZabcdefghijklmnopqrstuvwxyz0123456789+/=-_ \n")])
                     if v != tok[i]:
                         b = bytearray(tok)
@@ -443,7 +450,7 @@ def run(ctx: Any) -> None:
             for n in range(len(tok)):
                 put(tok[:n], "truncate-text", ("TTrunc", tok, n))
             raw = base64.b64decode(tok)
-            for n in range(0, len(raw), 1 if not quick else 3):
+            for n in range(0, len(raw), 2 if not quick else 3):
                 put(base64.b64encode(raw[:n]), "truncate-raw")
                 put(base64.b64encode(raw[len(raw) - n :]), "truncate-raw")
             for suf in (b"A", b"=", b"==", b"AAAA", b"AA==", b"\n", b" ", b"\x00", b"A===", b"===="):
@@ -852,7 +859,7 @@ def run(ctx: Any) -> None:
         "XChaCha20-Poly1305 is unforgeable and confidential (premise of the theorems; the real cipher is only compared with the ideal table on the generated mutations)",
         "zstd decompress(compress(x)) = x and SHA-256 enter as parameters; base64 is modelled after CPython 3.13 binascii.a2b_base64(strict_mode=True) and validated by correspondence",
         "states and schemas minted by the server deserialize (post-token failures are outside the token model); type/stream-id bytes of minted call tokens are valid UTF-8",
-        "time.time of vgi_rpc.http.server._state_token is replaced by a scripted logical clock; the cache clock of _app_stream is the real one",
+        "time.time of vgi_rpc.http.server._state_token is replaced by a scripted logical clock; time.time of _app_stream (the call-state cache's clock, TTL = token TTL) is pinned to a constant so that warm entries do not expire in real time during a long run",
         "call token judged on the cache-miss path only (call_state_cache_entries=0); warm-cache behaviour is C14, method binding C13",
     ]
 
